@@ -942,7 +942,9 @@ def run(ctx):
                 "re-used from a per-module pool, runs of 3-6 equal or unifiable consecutive statements also inside blocks, "
                 "string literals spelling ${name} of the wildcard names, layout variation); patterns = source of a random "
                 "expression or window of 1-3 statements of the module (2-3 statement windows inside a run with the differing "
-                "leaves as wildcards: chains of mutually overlapping instances) with 0-4 sub-expressions abstracted into wildcards (same wildcard for "
+                "leaves as wildcards: chains of mutually overlapping instances; nodes whose optional children are set in different "
+                "slots -- slices, raise/from, annotated assignments, dicts with ** -- with the set children as wildcards; a third of the "
+                "one-line patterns re-spelled with another layout; PEP 515 number spellings) with 0-4 sub-expressions abstracted into wildcards (same wildcard for "
                 "equal code, sometimes for unequal code; ${?x} and `exact` wildcards), random region and skip region, "
                 "RawSimilarFinder or SimilarFinder; non-trivial = at least one match reported; distinct by "
                 "(source, pattern, driver, region, exact). restructuring: see coverage.restructure_rule")
